@@ -191,6 +191,20 @@ def result_container_check(_):
                     bad.setdefault("result-not-a-copy/%s" % key, vn)
             except Exception as e:  # noqa
                 bad.setdefault("result-set-get-failed/%s" % key, repr(e)[:80])
+            for how in ("update", "setdefault"):
+                r = OptimizeResult()
+                v = VALS[vn]()
+                n += 1
+                try:
+                    if how == "update":
+                        r.update({key: v})
+                    else:
+                        r.setdefault(key, v)
+                    _mut(v)
+                    if _norm(r[key]) != _norm(VALS[vn]()):
+                        bad.setdefault("result-not-a-copy/%s/%s" % (how, key), vn)
+                except Exception as e:  # noqa
+                    bad.setdefault("result-set-get-failed/%s/%s" % (how, key), repr(e)[:80])
     for key in ("nope", "X", "fvals", ""):
         r = OptimizeResult()
         n += 1
@@ -201,6 +215,17 @@ def result_container_check(_):
             pass
         except Exception as e:  # noqa
             bad.setdefault("result-unknown-key-wrong-exception", (key, type(e).__name__))
+        # the other ways of writing into a mapping obey the same contract (unknown keys rejected, values copied)
+        for how, fn in (("update", lambda: r.update({key: 1})), ("update-kw", lambda: r.update(**{key: 1}) if key.isidentifier() else r.update({key: 1})),
+                        ("setdefault", lambda: r.setdefault(key, 1))):
+            n += 1
+            try:
+                fn()
+                bad.setdefault("result-unknown-key-accepted/%s" % how, key)
+            except ValueError:
+                pass
+            except Exception as e:  # noqa
+                bad.setdefault("result-unknown-key-wrong-exception/%s" % how, (key, type(e).__name__))
         try:
             r[key]
             bad.setdefault("result-unknown-key-readable", key)
